@@ -23,7 +23,7 @@ def run(ctx):
         ctx, "fault_enumeration",
         "a real client command over an arbitrary upstream list, every listed endpoint being either a REAL socketace server (own recording "
         "target that announces itself with a banner, own connection-counting relay in front) or a scripted failing endpoint. "
-        "(A) lists of 1-4 upstreams over {tcp, tcp+tls, ws, udp}: every failing subset for lengths 1-3 (x3 quick / x10 thorough with manners and "
+        "(A) lists of 1-4 upstreams over {tcp, tcp+tls, ws, udp} (every second list of 2+ entries spells its hosts alternately localhost / 127.0.0.1, each real endpoint holding a certificate valid for its own spelling only; half of the connections served by a reachable forward address end with a reset from the forward target or an aborting application, after which the upstreams must still be untouched): every failing subset for lengths 1-3 (x3 quick / x10 thorough with manners and "
         "kinds handed out round-robin) and a seeded sample of 4-entry lists; failing manners {refused, handshake answered 400 / garbage / closed, "
         "plain server while --secure, silent = accepts and never answers (also after the carrier's own TLS / websocket handshake; udp: closed port; "
         "also only after a valid '200' to the announce request, and inside StartTLS after '200 StartTLS' + '101' - on tcp, tcp+tls, ws, udp)}; "
